@@ -228,6 +228,28 @@ def cmd_compile(gp, seed, n, outdir):
         "pub fn use_it() -> Vec<u8> { parity_scale_codec::Encode::encode(&NAME::<u8, u64> { a: 1, b: 2, c: 3, d: 4 }) }\n"
         "pub fn use_it2() -> bool { <NAME<u8, u64> as parity_scale_codec::Decode>::decode(&mut &[1u8, 8, 4, 0, 0, 0, 0, 0, 0, 0][..]).is_ok() }\n",
         "accepts", "struct 4 p u32 c u32 s u32 p u32", None)
+    # discriminants naming user constants that are called like items of the generated check itself
+    # (finding F7: these were captured by the helper items; valid definitions, must compile) - and like
+    # locals / plausible helper names a rewrite of the check might introduce
+    for cname in ["INVALID_INDEX", "indices", "DUP_INFO", "LEN", "len", "N", "COUNT", "array", "i", "j", "msg", "INDICES", "MAX_INDEX", "search_for_invalid_index", "duplicate_info"]:
+        KC = "#[allow(non_upper_case_globals)]\npub const %s: isize = 3;\n" % cname
+        add(KC + D + "pub enum NAME { A = %s, B }\n" % cname, "accepts", "enum 2 0 - 3 0 0 - - 0", None)
+    KC = "#[allow(non_upper_case_globals)]\npub const LEN: isize = 1;\n"
+    add(KC + D + "pub enum NAME { A = LEN, B }\n", "accepts", "enum 2 0 - 1 0 0 - - 0", "duplicate index (constant named LEN vs implicit position)")
+    KC = "pub const LEN: isize = 300;\n"
+    add(KC + D + "#[repr(u16)]\npub enum NAME { A, B = LEN as u16 }\n", "accepts", "enum 2 0 - - 0 0 - 300 0", "index > 255 (constant named LEN)")
+    KC = "pub const LEN: isize = 0;\npub const COUNT: isize = 2;\n"
+    add(KC + D + "pub enum NAME { First = LEN, Second = COUNT }\n", "accepts", "enum 2 0 - 0 0 0 - 2 0", None)
+    # skip_type_params with a field type that mentions a skipped AND a bounded parameter
+    add("#[derive(parity_scale_codec::Encode, parity_scale_codec::Decode)]\n#[codec(encode_bound(skip_type_params(M)))]\n#[codec(decode_bound(skip_type_params(M)))]\n"
+        "pub struct NAME<P, M> { items: Vec<(P, core::marker::PhantomData<M>)>, n: u8 }\n"
+        "pub fn use_it() -> Vec<u8> { parity_scale_codec::Encode::encode(&NAME::<u32, crate::NotCodec> { items: vec![], n: 1 }) }\n"
+        "pub fn use_it2() -> bool { <NAME<u32, crate::NotCodec> as parity_scale_codec::Decode>::decode(&mut &[0u8, 1][..]).is_ok() }\n",
+        "accepts", "struct 2 p u32 p u32", None)
+    add("#[derive(parity_scale_codec::Encode, parity_scale_codec::Decode)]\n#[codec(encode_bound(skip_type_params(M)))]\n#[codec(decode_bound(skip_type_params(M)))]\n"
+        "pub enum NAME<P, M> { A(Option<(P, core::marker::PhantomData<M>)>), #[codec(skip)] B(M), C { #[codec(skip)] m: core::marker::PhantomData<M>, p: Vec<P> } }\n"
+        "pub fn use_it() -> Vec<u8> { parity_scale_codec::Encode::encode(&NAME::<u32, crate::NotCodec>::A(None)) }\n",
+        "accepts", "enum 3 0 - - 1 p u32 1 - - 1 p u32 0 - - 2 s u32 p u32", None)
     # associated-type projections of a type parameter - one of them NAMED LIKE THE DERIVING TYPE ITSELF
     # (the derive leaves self-referential field types out of the where-clause; `P::NAME` is not one)
     CFG = ("pub trait Cfg { type NAME; type Other; }\n"
